@@ -366,6 +366,19 @@ def d43():
   return None
 
 
+def d44():
+  from device_kit.projection import List, HyperCube
+  r = List([HyperCube([[0.5, 1.5], [0.5, 1.5]])]).project([[0, 2]])
+  return None if np.allclose(r, [[0.5, 1.5]]) else 'List.project of an integer-typed point truncates: %s, expected [[0.5, 1.5]]' % np.array(r).tolist()
+
+
+def d45():
+  from device_kit.projection import Intersection, Slice, HalfSpace
+  I = Intersection(Slice([-3.75, -2], 3.75, 7.25), HalfSpace([4, 3], 4, 1))
+  x = I.project([-2.5, -1])
+  return None if I.is_in(x) else 'Intersection.project returned a point its own is_in rejects (Dykstra tests the a-side iterate but returns the b-side one)'
+
+
 if __name__ == '__main__':
   names = [a for a in sys.argv[2:]] or sorted(k for k in globals() if k[0] == 'd' and k[1:3].isdigit())
   bad = 0
